@@ -493,7 +493,7 @@ def nonzero_ics(c):
 
 def run_circuit(case):
     point = {'s': sp.Rational(case.get('s0', '2')), 'omega': sp.Rational(case.get('w0', '3/2')),
-             '__eps__': sp.Rational(case.get('eps', '1/7'))}
+             '__eps__': sp.Rational(case.get('eps', '0'))}
     state.current_sign_convention = 'passive'
     IC['TP_SRC_BY_CLASS'].clear()
     IC['TP_SRC_BY_CLASS'].update(case.get('tp_src', {}))
